@@ -973,19 +973,59 @@ def oracle_c05_history(recs, fk_on, stop_before=None):
                 break                     # no consistent population found by the simple scheme: not judged
             conn.execute("PRAGMA foreign_keys=%s" % ("ON" if fk_on else "OFF"))
             pre = snapshot(conn)
+            pre_cat = read_catalog_raw(conn)
             err = run_migration(conn, rec)
             judged += 1
             if err:
-                traces.append((rec["_idx"], pre, {"error": err[2]}))
+                traces.append((rec["_idx"], pre, {"error": err[2]}, pre_cat))
                 if data_caused(rec, err[3]):
                     return {"step": k, "kind": "exempt-data-violates-new-constraint", "message": err[3], "sql": err[4]}, judged, traces
                 return {"step": k, "kind": "engine-error", "action": err[0], "stmt": err[1], "flat": err[2], "message": err[3], "sql": err[4],
                         "rows_before": {t: len(v[1]) for t, v in pre.items()}}, judged, traces
             post = snapshot(conn)
-            traces.append((rec["_idx"], pre, post))
+            traces.append((rec["_idx"], pre, post, pre_cat))
             diff = compare_rows(pre, post, rec["plan"])
             if diff:
                 return {"step": k, "kind": "rows-differ", "differences": diff}, judged, traces
         return None, judged, traces
     finally:
         conn.close()
+
+
+# ------------------------------------------------------------------------------------------------ K-eng-sqlite, rows
+def rows_gallina(snap):
+    g = sqlparse.gstr
+    def val(v):
+        return "VNull" if v is None else "(VText %s)" % g(v)
+    ts = []
+    for name in sorted(snap):
+        cols, rows = snap[name]
+        ts.append("(%s, [%s])" % (g(name), "; ".join("[" + "; ".join("(%s, %s)" % (g(c), val(v)) for c, v in zip(cols, r)) + "]" for r in rows)))
+    return "[" + ";\n     ".join(ts) + "]"
+
+
+def rows_cases(rows, traces, fk_on):
+    out = []
+    for idx, pre, post, pre_cat in traces:
+        real = "(Err %d)" % post["error"] if "error" in post else "(Ok %s)" % rows_gallina(post)
+        out.append((idx, "(mkRowsCase %s %s\n   %s\n   %s\n   %s\n   %s)" % (
+            sqlparse.gbool(fk_on), catalog_gallina(pre_cat), rows_gallina(pre), rows[idx]["g_baseline"], rows[idx]["g_actions"], real)))
+    return out
+
+
+def run_krows(cases, d, per_shard):
+    terms = [t for _, t in cases]
+    for si in range(0, len(terms), per_shard):
+        body = "From VV.SQLITE Require Import Corr.\n\nDefinition shard_base : nat := %d.\nDefinition cases : list rows_case := [\n%s\n].\nEval vm_compute in rows_mismatches_from shard_base cases.\n" % (
+            si, ";\n".join(terms[si:si + per_shard]))
+        open(os.path.join(d, "cases_rows_%03d.v" % (si // per_shard)), "w").write(body)
+    res = vflib.run_shards(LAYER, d, "cases_rows_*.v")
+    mism, errors = [], []
+    for f, rc, o, dt in res:
+        if rc != 0:
+            errors.append({"shard": os.path.basename(f), "log": o[-1500:]})
+            continue
+        blocks = vflib.parse_eval_outputs(o)
+        for k in vflib.parse_nat_list(blocks[0] if blocks else ""):
+            mism.append([k, cases[k][0]])
+    return {"mismatches": mism, "errors": errors, "cases": len(cases)}
